@@ -371,15 +371,29 @@ pub fn part_c14_threads(tier: Tier) -> Part {
         hs.push(("watch2-restart-restart".into(), vec![stop_in_main.clone(), stop_in_worker.clone(), json!({"op": "start"}), w(acc, 8), w(counter, 2), json!({"op": "restart"}), json!({"op": "restart"}), json!({"op": "continue"}), json!({"op": "continue"}), json!({"op": "continue"})]));
     }
     for (name, cmds) in &hs {
-        let run = session(&mt.built.exe, |obs| cmds.get(obs.len()).cloned(), Duration::from_secs(15), cmds.len());
+        let mut run = session(&mt.built.exe, |obs| cmds.get(obs.len()).cloned(), Duration::from_secs(15), cmds.len());
         part.evaluations += 1;
         part.states += run.obs.len() as u64;
         part.transitions += run.obs.len() as u64;
         part.traces_validated += 1;
         let replay = json!({"engine": "mt", "exe": mt.built.exe, "commands": cmds});
         if run.hang_at.is_some() || run.crashed.is_some() {
-            part.violate("C14:threads:session-broke", format!("[{name}] hang {:?} crash {:?}", run.hang_at, run.crashed), replay);
-            continue;
+            // the schedule is the kernel's: a hang counts only if it shows again (two more sessions)
+            let first = format!("hang {:?} crash {:?}", run.hang_at, run.crashed);
+            let mut again = 0;
+            for _ in 0..2 {
+                let r2 = session(&mt.built.exe, |obs| cmds.get(obs.len()).cloned(), Duration::from_secs(15), cmds.len());
+                if r2.hang_at.is_some() || r2.crashed.is_some() {
+                    again += 1;
+                } else {
+                    run = r2;
+                }
+            }
+            if again > 0 {
+                part.violate("C14:threads:session-broke", format!("[{name}] {first} (again in {again} of 2 further sessions)"), replay);
+                continue;
+            }
+            part.caps_hit.push(format!("[{name}] one session did not answer ({first}); two further sessions of the same history did: not a verdict"));
         }
         let mut multi = false;
         for o in &run.obs {
